@@ -204,4 +204,49 @@ def besEmission (c : Consts α) (sqrt : α → α) (s : BESScene α) (rates : Li
   | some vb => .line (c.recip4pi * s.beamDensity * beamEmissionRate c sqrt vb (s.species.zip rates))
 
 end
+/-! ### `Composition` (node.pyx:33-164): the species dictionary behind `Plasma.composition`
+
+Keys `(element, charge)` are numbers here, the payload is the identity of the `Species` object.  A Python `dict`
+keeps insertion order and an assignment to an existing key keeps its position.  `none` results = the call raised;
+the caller's dictionary is then what it was (the functions return the new dictionary only on success) and no
+notification is sent. -/
+
+/-- an element of the list handed to `set` / the argument of `add` -/
+inductive Item where
+  | species (key : Nat) (obj : Nat)   -- a `Species` object
+  | other                             -- anything else (wrong type, `None` inside a list)
+  deriving Repr, DecidableEq
+
+def Item.isSpecies : Item → Bool
+  | .species _ _ => true
+  | .other => false
+
+/-- `self._species[key] = obj` -/
+def dictAssign (d : List (Nat × Nat)) (key obj : Nat) : List (Nat × Nat) :=
+  if d.any (fun e => e.1 == key) then d.map (fun e => if e.1 == key then (key, obj) else e) else d ++ [(key, obj)]
+
+def insertItem (d : List (Nat × Nat)) : Item → List (Nat × Nat)
+  | .species k o => dictAssign d k o
+  | .other => d
+
+/-- result of a mutator: the dictionary afterwards, whether it raised, whether `notifier.notify()` ran -/
+structure CompResult where
+  dict : List (Nat × Nat)
+  raised : Bool
+  notified : Bool
+  deriving Repr, DecidableEq
+
+/-- `Composition.set`: every item is type-checked *before* the dictionary is reset -/
+def compositionSet (d : List (Nat × Nat)) (items : List Item) : CompResult :=
+  if items.all Item.isSpecies then ⟨items.foldl insertItem [], false, true⟩ else ⟨d, true, false⟩
+
+/-- `Composition.add(species)`: `None` → ValueError, a non-Species → TypeError (argument typing), both before any change -/
+def compositionAdd (d : List (Nat × Nat)) (item : Option Item) : CompResult :=
+  match item with
+  | some (.species k o) => ⟨dictAssign d k o, false, true⟩
+  | _ => ⟨d, true, false⟩
+
+/-- `Composition.clear` -/
+def compositionClear (_d : List (Nat × Nat)) : CompResult := ⟨[], false, true⟩
+
 end Cherab.BeamEmission
